@@ -1,10 +1,10 @@
 SPECIFICATION Spec
 CONSTANTS
-  NCalls = 3
-  Design = "drain"
-  SharedClosure = TRUE
+  NCalls = 2
+  Design = "chain"
+  SharedClosure = FALSE
   Kinds = {"value", "raise"}
-  PeelLosesError = FALSE
+  PeelLosesError = TRUE
 INVARIANT NoViolation
 INVARIANT QuiescentOK
 INVARIANT TypeOK
